@@ -2,6 +2,8 @@ import DoltVerif.Lemmas.NbsFiles
 import DoltVerif.Lemmas.NbsFindOffsets
 import DoltVerif.Lemmas.NbsArc
 import DoltVerif.Lemmas.NbsStore
+import DoltVerif.Lemmas.NbsGetMany
+import DoltVerif.Lemmas.NbsJStore
 /-!
 C01 — Chunk reads return exactly the bytes stored under that address.
 
@@ -87,6 +89,26 @@ theorem archive_findIndex_spec (ar : Arc) (a : Addr) (hwf : AWF ar) :
     (∃ k, findIndex ar a = some (some k) ∧ ARowIs ar k a) ∨
     (findIndex ar a = some none ∧ ∀ k, ¬ ARowIs ar k a) := findIndex_spec ar a hwf
 
+/-- **`getManyCompressed` agrees with `getMany`** on a table file (any index of the written chunks,
+any tie order, compression abstract): for a prefix-sorted request list both succeed, mark the same
+requests found with the same `remaining`, and deliver the same addresses in the same order — `getMany`
+the bytes `d` of a written chunk, `getManyCompressed` exactly `cmp d`; one delivery per newly found
+request (`FoRel`). -/
+theorem getManyCompressed_agrees (c : Codec) (hc : c.Ok) (chunks : List Chunk) (ix : Idx)
+    (hix : IsIndexOf ix (chunks.map (recOf c))) (tail : Bytes) (reqs : List GetRec)
+    (hsorted : reqs.Pairwise (fun x y => x.a.pre ≤ y.a.pre)) :
+    ∃ out recs rem L, FoRel ix reqs out recs ∧
+      tableGetMany c (recordsOf c chunks ++ tail) ix reqs = .ok (out, L, rem) ∧
+      tableGetManyCompressed c (recordsOf c chunks ++ tail) ix reqs = .ok (out, L.map (fun p => (p.1, c.cmp p.2)), rem) ∧
+      (∀ p ∈ L, ∃ ch ∈ chunks, p = (ch.a, ch.data)) ∧ L.map (·.1) = (sortByOff recs).map (·.a) ∧
+      L.length = recs.length ∧ (rem = false → ∀ o ∈ out, o.found = true) := by
+  obtain ⟨out, recs, rem, hf, hrel, hrem, _, hlen, hmem⟩ := findOffsets_spec ix hix.wf hix.sorted reqs hsorted
+  obtain ⟨L, h1, h2, h3, h4⟩ := read_recs c hc chunks ix hix tail (sortByOff recs)
+    (fun r hr => foRel_entries ix _ _ _ hrel r ((hmem r).mp hr))
+  refine ⟨out, recs, rem, L, hrel, by simp [tableGetMany, hf, h1], by simp [tableGetManyCompressed, hf, h2], h4, h3, ?_, hrem⟩
+  have := congrArg List.length h3
+  simpa [hlen] using this
+
 /-! ### Store level (simplified store model, `Model/NbsStore.lean`) -/
 
 open DoltVerif.NbsStore in
@@ -100,11 +122,36 @@ theorem store_reads_agree (s : Store) :
   ⟨get_eq_abs s, has_eq_abs s, getMany_spec s, NbsStore.hasMany_spec s⟩
 
 open DoltVerif.NbsStore in
-/-- for every history of put / commit (flush with de-duplication against the tables) / reopen:
-an address is readable iff it was written -/
+/-- for every history of put / commit (flush with de-duplication against the tables) / reopen /
+conjoin (selected tables replaced by one serving their concatenation) / gc (all tables replaced by one
+serving exactly the kept set): an address is readable iff it was **written and not collected since**
+(`live` = the written pairs, filtered by every later keep-set) -/
 theorem store_present_iff_written (ops : List Op) (a : Addr) :
-    ((run ops).get a).isSome ↔ a ∈ (written ops).map (·.1) := by
+    ((run ops).get a).isSome ↔ a ∈ (live ops).map (·.1) := by
   rw [get_eq_abs]; exact NbsStore.store_present_iff_written ops a
+
+open DoltVerif.NbsStore in
+/-- garbage collection is exactly the restriction of the abstract map to the keep-set: kept addresses
+read the same bytes as before, everything else is gone -/
+theorem store_gc_exact (s : Store) (keep : Addr → Bool) (a : Addr) :
+    (s.gc keep).get a = if keep a then s.get a else none := by
+  rw [get_eq_abs, get_eq_abs]; exact gc_abs s keep a
+
+open DoltVerif.NbsStore in
+/-- conjoin neither adds nor loses a chunk: the same (address, bytes) pairs are held, the same
+addresses are present -/
+theorem store_conjoin_preserves (s : Store) (sel : Source → Bool) :
+    (∀ e, e ∈ (s.conjoin sel).entries ↔ e ∈ s.entries) ∧ (∀ a, (s.conjoin sel).has a = s.has a) := by
+  refine ⟨conjoin_entries s sel, fun a => ?_⟩
+  rw [has_eq_abs, has_eq_abs]
+  have h1 := abs_isSome_iff (s.conjoin sel) a
+  have h2 := abs_isSome_iff s a
+  have hk : a ∈ (s.conjoin sel).keys ↔ a ∈ s.keys := by
+    simp only [Store.keys, List.mem_map]
+    constructor
+    · rintro ⟨e, he, rfl⟩; exact ⟨e, (conjoin_entries s sel e).mp he, rfl⟩
+    · rintro ⟨e, he, rfl⟩; exact ⟨e, (conjoin_entries s sel e).mpr he, rfl⟩
+  cases h : ((s.conjoin sel).abs a).isSome <;> cases h' : (s.abs a).isSome <;> simp_all
 
 open DoltVerif.NbsStore in
 /-- … and what is read is bytes that were written under that very address; hence, if every write is
@@ -119,6 +166,54 @@ theorem generational_reads_agree (g : Gen) :
     (∀ a, g.get a = g.abs a) ∧ (∀ a, g.has a = (g.abs a).isSome) ∧
     (∀ as, g.hasMany as = as.filter (fun a => (g.abs a).isNone)) :=
   ⟨gen_get_eq_abs g, gen_has_eq_abs g, gen_hasMany_spec g⟩
+
+/-! ### Journal store: the range index inside the store model -/
+
+open DoltVerif.NbsStore in
+/-- a journaling store (memtable → journal source with novel map + addr16 cache → table files) over
+every history of put / commit (persist into the journal, de-duplicated) / flatten: for a queried
+address `a` **that no written address aliases on its first 16 bytes**, `Get` returns only bytes written
+under `a`, is defined iff `a` was written, `Has` is its domain and `HasMany` the complement of `Has`. -/
+theorem jstore_reads_agree_partial (ops : List JOp) (a : Addr)
+    (hno : ∀ x ∈ jwritten ops, x.1.a16 = a.a16 → x.1 = a) :
+    (((jrun ops).get a).isSome ↔ a ∈ (jwritten ops).map (·.1)) ∧
+    (∀ d, (jrun ops).get a = some d → (a, d) ∈ jwritten ops) ∧
+    ((jrun ops).has a = ((jrun ops).get a).isSome) ∧
+    (∀ as, (jrun ops).hasMany as = as.filter (fun x => !(jrun ops).has x)) := by
+  refine ⟨⟨?_, jstore_get_complete ops a⟩, jstore_get_sound ops a hno, jstore_has_eq _ a, jstore_hasMany_eq _⟩
+  intro h
+  obtain ⟨d, hd⟩ := Option.isSome_iff_exists.mp h
+  exact List.mem_map.mpr ⟨(a, d), jstore_get_sound ops a hno d hd, rfl⟩
+
+/-- the unrestricted statement … -/
+def jstore_reads_agree_full : Prop :=
+  ∀ (ops : List NbsStore.JOp) (a : Addr), ((NbsStore.jrun ops).get a).isSome → a ∈ (NbsStore.jwritten ops).map (·.1)
+
+/-- … is false at store level too (known finding `journal-addr16-alias`): write one chunk, commit,
+flatten; an address differing only in its last 4 bytes is then present and readable. -/
+theorem jstore_reads_agree_full_false : ¬ jstore_reads_agree_full := by
+  intro h
+  have := h [.put ⟨1, 5 * 4294967296 + 1⟩ [7], .commit, .flatten] ⟨1, 5 * 4294967296 + 2⟩
+  revert this
+  decide
+
+open DoltVerif.NbsStore in
+/-- as long as no flatten has happened, iterating the journal source reports written chunks only,
+each under its own address -/
+theorem jstore_iterate_partial (ops : List JOp) (hn : ∀ op ∈ ops, op.isFlatten = false) (p : Addr × NbsStore.Bytes)
+    (hp : p ∈ (jrun ops).j.iterate) : p ∈ jwritten ops := jstore_iterate_sound ops hn p hp
+
+/-- full iteration of the journal source reports only written chunks … -/
+def jstore_iterate_full : Prop :=
+  ∀ (ops : List NbsStore.JOp) (p : Addr × NbsStore.Bytes), p ∈ (NbsStore.jrun ops).j.iterate → p ∈ NbsStore.jwritten ops
+
+/-- … is false after a flatten (known finding `journal-addr16-iterate`): the chunk is reported under
+its first 16 address bytes followed by zeros. -/
+theorem jstore_iterate_full_false : ¬ jstore_iterate_full := by
+  intro h
+  have := h [.put ⟨1, 5 * 4294967296 + 1⟩ [7], .commit, .flatten] (⟨1, 5 * 4294967296⟩, [7])
+  revert this
+  decide
 
 /-! ### Journal range index -/
 
@@ -218,6 +313,9 @@ example : [(⟨⟨5, 11⟩, false⟩ : HasRec), ⟨⟨5, 13⟩, false⟩, ⟨⟨
 #guard hasMany exIdx [⟨⟨5, 12⟩, false⟩, ⟨⟨5, 13⟩, false⟩, ⟨⟨9, 11⟩, false⟩, ⟨⟨10, 0⟩, false⟩, ⟨⟨11, 0⟩, true⟩]
     == some ([⟨⟨5, 12⟩, true⟩, ⟨⟨5, 13⟩, false⟩, ⟨⟨9, 11⟩, true⟩, ⟨⟨10, 0⟩, false⟩, ⟨⟨11, 0⟩, true⟩], true)
 
+example : ∀ x ∈ NbsStore.jwritten [.put ⟨1, 7⟩ [1], .commit, .flatten, .put ⟨2, 9⟩ [2]], x.1.a16 = (⟨2, 9⟩ : Addr).a16 → x.1 = ⟨2, 9⟩ := by
+  decide
+
 example : (jrun [.put ⟨1, 7⟩ (0, 3), .flatten, .put ⟨2, 9⟩ (5, 4)]).get ⟨2, 9⟩ = some (5, 4) := by decide
 
 example : [(⟨⟨5, 11⟩, false⟩ : GetRec), ⟨⟨5, 13⟩, false⟩, ⟨⟨9, 11⟩, true⟩].Pairwise (fun x y => x.a.pre ≤ y.a.pre) := by
@@ -226,7 +324,7 @@ example : [(⟨⟨5, 11⟩, false⟩ : GetRec), ⟨⟨5, 13⟩, false⟩, ⟨⟨
 #guard prollyBinSearch #[5, 5, 5, 5] 5 == some 0 && prollyBinSearch #[0, 1, 2, 18446744073709551615] 3 == some 3
 #guard (findOffsets exIdx [⟨⟨5, 12⟩, false⟩, ⟨⟨5, 13⟩, false⟩, ⟨⟨9, 11⟩, false⟩]).map (fun r => (r.2.1.map (fun o => (o.off, o.len)), r.2.2))
     == some ([(4, 6), (10, 3)], true)
-#guard (NbsStore.run [.put ⟨1, 1⟩ [1], .commit, .put ⟨1, 2⟩ [2], .put ⟨1, 1⟩ [1], .reopen, .put ⟨2, 2⟩ [3]]).getMany [⟨1, 1⟩, ⟨1, 3⟩, ⟨2, 2⟩]
+#guard (NbsStore.run [.put ⟨1, 1⟩ [1], .commit, .put ⟨3, 3⟩ [9], .gc (fun a => a.pre != 3), .conjoin (fun _ => true), .put ⟨1, 2⟩ [2], .put ⟨1, 1⟩ [1], .reopen, .put ⟨2, 2⟩ [3]]).getMany [⟨1, 1⟩, ⟨1, 3⟩, ⟨2, 2⟩]
     == [(⟨2, 2⟩, [3]), (⟨1, 1⟩, [1])]
 
 end DoltVerif.C01
